@@ -1,5 +1,9 @@
 import JunoModel.C11.ProofsSpec
 import JunoModel.C11.ProofsPretty
+import JunoModel.C11.ProofsPrettyText
+import JunoModel.C11.ProofsGate
+import JunoModel.C11.ProofsConn
+import JunoModel.C11.ProofsRegister
 import JunoModel.C11.ProofsBatch
 /-!
 C11 — property theorems (statements only; proofs in `Proofs*.lean`, vocabulary in `ModelSpec.lean`,
@@ -374,6 +378,44 @@ theorem pretty_truncate_in_range (len : Nat) (pivot : Int) (hp : 1 ≤ pivot) (s
     0 ≤ s ∧ s ≤ e ∧ e ≤ len ∧ 1 ≤ mc :=
   Pretty.truncateAround_in_range len pivot hp s e mc h
 
+/-- (round 4) The WHOLE of `prettyParseError` — `describeError` / `describeSyntaxError` / `precededByComma`,
+`lineAndColumn`, `offendingLine`, `truncateAround` on the real runes, `precedingLines`, `drawMarker` — in the
+checked transcription `Pretty.prettyParseError?` (every Go slice expression and the `strings.Repeat` count
+return `none` where Go would panic): for every sequence of reads, every number of skipped leading blanks
+(at most what was read) and every decode error (any kind, any offset, any error text) the text of the
+-32700 answer is produced; no index is out of range, no repeat count negative. -/
+theorem pretty_text_never_panics (chunks : List (List UInt8)) (skipped : Nat) (e : Pretty.ErrInfo)
+    (hsk : skipped ≤ (Pretty.Win.writes {} chunks).consumedBytes) :
+    ∃ t, Pretty.prettyParseError? (Pretty.Win.writes {} chunks) skipped e = some t :=
+  Pretty.prettyParseError_ok _ skipped e (Pretty.inv_writes _ _ Pretty.inv_init) hsk
+
+/-- (round 4) What is drawn is bounded: a line that went through `truncateAround` has at most
+`maxLineWidth` = 80 runes (for every line and every pivot, also out-of-range ones), and at most
+`maxContextRows` = 3 rows are drawn above the offending line. -/
+theorem pretty_text_bounded (runes : List Nat) (pivot : Int) (r : Option (List Nat)) (p : Int)
+    (window : List UInt8) (windowStart markerPos : Nat) (rows : List (List UInt8))
+    (h : Pretty.truncateRunes? runes pivot = some (r, p))
+    (hr : Pretty.precedingLines? window windowStart markerPos = some rows) :
+    Pretty.drawnLength runes r ≤ 80 ∧ rows.length ≤ 3 := by
+  refine ⟨Pretty.truncateRunes_width runes pivot r p h, ?_⟩
+  by_cases hm : markerPos ≤ window.length
+  · obtain ⟨rows', hr', hl⟩ := Pretty.precedingLines_ok window windowStart markerPos hm
+    rw [hr] at hr'
+    cases hr'
+    exact hl
+  · unfold Pretty.precedingLines? at hr
+    have : markerPos > window.length := by omega
+    simp [this] at hr
+
+/-- (round 4) Cutting a long line keeps the caret on the rune it named: if column `pivot` names a rune of the
+line (1 ≤ pivot ≤ number of runes) and `truncateAround` cuts the line, the rune at the new column of what
+is drawn is the rune at the old column of the line. -/
+theorem pretty_caret_names_same_rune (runes : List Nat) (pivot : Int) (h1 : 1 ≤ pivot)
+    (hlt : pivot - 1 < (runes.length : Int)) (rs : List Nat) (p : Int)
+    (h : Pretty.truncateRunes? runes pivot = some (some rs, p)) :
+    rs[(p - 1).toNat]? = runes[(pivot - 1).toNat]? :=
+  Pretty.truncateRunes_caret runes pivot h1 hlt rs p h
+
 /-! ## 8. The validator of rpc/v10 (arithmetic) -/
 
 /-- `felt_max_bits=b` accepts exactly the values below 2^b -/
@@ -389,6 +431,97 @@ with or without the query bit -/
 theorem boundsValid_spec (ma mp ver : Nat) :
     boundsValid ma mp ver = true ↔ ma < 2 ^ 64 ∧ mp < 2 ^ 128 ∧ (ver = 3 ∨ ver = 2 ^ 128 + 3) := by
   simp [boundsValid, feltMaxBits, bitLen_le_iff, version03, and_assoc]
+
+/-! ## 9. The admission gate of the HTTP transport (`jsonrpc/gate.go`, round 4)
+
+An overloaded server may refuse a request with 503 (by design: outside the property). What the property
+needs from the gate is that it does not refuse for ever: its counters describe exactly the requests
+that are still there. -/
+
+/-- In every state the gate can reach from `NewGate(c, q)` by any sequence of `Acquire` (with a live or
+an already cancelled context), `Release`, and contexts of queued requests ending: slots in use never
+exceed `c`, `activeRequests` is exactly slots in use + goroutines queued in `Acquire` and never exceeds
+`maxRequests`, and nobody is queued while a slot is free. -/
+theorem gate_invariant (c q : Nat) (ops : List Gate.Op) : ((Gate.St.new c q).run ops).Inv :=
+  Gate.run_inv _ ops (Gate.inv_new c q)
+
+/-- After ANY history (requests refused, clients gone while queued, deadlines expired in the queue …), once
+no request holds a slot and none is queued, the gate counts nothing (`activeRequests = 0`) and admits the
+next request at once: no history makes an idle server refuse for ever. -/
+theorem gate_idle_server_admits (c q : Nat) (hc : 1 ≤ c) (hc' : c < Gate.two64) (hq : q < Gate.two64)
+    (ops : List Gate.Op)
+    (hs : ((Gate.St.new c q).run ops).sem = 0) (hw : ((Gate.St.new c q).run ops).waiting = 0) :
+    ((Gate.St.new c q).run ops).active = 0 ∧
+      (((Gate.St.new c q).run ops).step (.acquire false)).2 = .admitted := by
+  have hp := Gate.run_params (Gate.St.new c q) ops
+  refine Gate.quiescent_admits _ (gate_invariant c q ops) hs hw ?_ ?_
+  · rw [hp.1]; exact hc
+  · rw [hp.2]
+    show 1 ≤ Gate.newMax c q
+    rw [Gate.newMax_spec c q hc' hq]
+    simp only [Gate.two64] at *
+    omega
+
+/-- In every reachable state a live `Acquire` is refused (`ErrServerBusy`) exactly when requests in
+progress + queued have reached `maxRequests`, and admitted at once exactly when a slot is free and the
+gate is not full (otherwise it queues). -/
+theorem gate_refuses_iff_full (c q : Nat) (ops : List Gate.Op) :
+    let s := (Gate.St.new c q).run ops
+    ((s.step (.acquire false)).2 = .busy ↔ s.active = s.maxRequests) ∧
+    ((s.step (.acquire false)).2 = .admitted ↔ s.sem < s.maxConcurrent ∧ s.active < s.maxRequests) :=
+  ⟨Gate.busy_iff_full _ (gate_invariant c q ops), Gate.admitted_iff_free_slot _⟩
+
+/-- `NewGate`: `maxRequests` is the sum of the two limits in `uint64`, saturated at `math.MaxUint64` — the
+overflow guard never yields a small (wrapped) limit. -/
+theorem gate_max_requests_saturates (c q : Nat) (hc : c < Gate.two64) (hq : q < Gate.two64) :
+    Gate.newMax c q = min (c + q) (Gate.two64 - 1) :=
+  Gate.newMax_spec c q hc hq
+
+/-! ## 10. The response comes first on its connection (`HandleReadWriter`, `connection.Write`, round 4) -/
+
+/-- Handlers may hand the connection of their request to goroutines that write further messages
+(subscriptions). For every interleaving of those writes with `HandleReadWriter` — any number of goroutines,
+calling `connection.Write` before or after the request finishes, unblocked in any order: nothing reaches the
+wire before the request is finished; afterwards the wire is what `Conn.outcome` says — the request's
+response first (none for a notification), then only pushed messages; and if the response could not be
+written (or `HandleReader` failed) nothing is ever written and every push is refused. -/
+theorem conn_response_precedes_pushes (fin : Conn.Finish) (s : Conn.St) (h : Conn.Reach fin s) :
+    (s.activated = false → s.wire = []) ∧
+    (s.activated = true → ∃ ps, s.wire = (Conn.outcome fin ps).1 ∧ (fin.fails = false → s.refused = [])) := by
+  obtain ⟨h1, h2, h3⟩ := Conn.inv_reach fin s h
+  refine ⟨fun ha => (h1 ha).1, fun ha => ?_⟩
+  by_cases hf : fin.fails = true
+  · exact ⟨[], by simp [Conn.outcome, hf, (h2 ha hf).2], fun h => by simp [hf] at h⟩
+  · have hf' : fin.fails = false := by simpa using hf
+    obtain ⟨_, hr, ps, hw⟩ := h3 ha hf'
+    exact ⟨ps, by simp [Conn.outcome, hf', hw], fun _ => hr⟩
+
+/-- The WebSocket connection limit admits a client exactly when fewer than `max` connections hold the
+semaphore. -/
+theorem ws_limit_connect_iff (l : Conn.Limit) : (l.step .connect).2 = true ↔ l.openConns < l.max :=
+  Conn.limit_connect_iff l
+
+/-! ## 11. The method table (`RegisterMethods` / `registerMethod`, round 4) -/
+
+/-- A handler `registerMethod` accepts is a function whose parameters — after an optional leading
+`context.Context` — are exactly as many as the declared parameter names, and which returns `(result, *Error)`
+or `(result, http.Header, *Error)`: what `buildArguments` (`handlerType.In(i+addContext)` for every declared
+parameter) and `handleRequest` (`tuple[1].(http.Header)`, `tuple[errorIndex].(*Error)`) rely on. -/
+theorem registered_handler_shape (d : MethodDecl) (h : checkMethod d = none) :
+    d.sig.isFunc = true ∧
+    d.sig.ins.length = d.method.params.length + (if needsContext d.sig then 1 else 0) ∧
+    ((∃ a, d.sig.outs = [a, .errPtr]) ∨ (∃ a, d.sig.outs = [a, .header, .errPtr])) :=
+  checkMethod_none d h
+
+/-- `RegisterMethods` registers exactly the methods before the first one it rejects (in order, after what
+the table held before) and returns that method's error; with no rejection all are registered. -/
+theorem register_methods_registers_prefix (tbl : Table) (ds : List MethodDecl) :
+    ∃ ok : List MethodDecl, ok <+: ds ∧ (registerMethods tbl ds).1 = tbl ++ ok.map (·.method) ∧
+      (∀ d ∈ ok, checkMethod d = none) ∧
+      (match (registerMethods tbl ds).2 with
+        | none => ok = ds
+        | some e => ∃ bad, (ds.drop ok.length).head? = some bad ∧ checkMethod bad = some e) :=
+  registerMethods_prefix tbl ds
 
 /-! ## Non-vacuity: the hypotheses are satisfiable, the model does what the examples of the
 specification say -/
@@ -418,6 +551,36 @@ example : (handleInput junoCfg echoEnv subTable (singleInput (request "opt" [("p
 example : ({ leadWs := 0, firstIsBracket := true,
              parsed := some (.arr [request "nope" [("id", .str "a")], .num "1"]) } : Input).entries junoCfg
     = some [request "nope" [("id", .str "a")], .num "1"] := by rfl
+-- the pretty printer: a line of 100 runes is cut around column 60, a short one is not; `[1,]` read in one chunk
+set_option maxRecDepth 8000 in
+example : (Pretty.truncateRunes? (List.replicate 100 97) 60).map (fun x => (x.1.map List.length, x.2)) = some (some 80, 41) := by
+  decide
+example : Pretty.truncateRunes? [91, 49, 44, 93] 4 = some (none, 4) := by decide
+example : ∃ rows, Pretty.precedingLines? [91, 10, 49, 44, 10, 93] 0 5 = some rows ∧ rows.length = 2 := ⟨_, rfl, by decide⟩
+example : (0 : Nat) ≤ (Pretty.Win.writes {} [[91, 49, 44, 93]]).consumedBytes := by decide
+-- the gate: Gate(1,1) — admitted, queued, refused, the queued client leaves, release: idle again, admitted
+example : ((Gate.St.new 1 1).trace [.acquire false, .acquire false, .acquire false, .waiterCtxDone, .release, .acquire false]).map (·.1)
+    = [.admitted, .queued, .busy, .ctxErr, .noop, .admitted] := by decide
+example : ((Gate.St.new 1 1).run [.acquire false, .acquire false, .waiterCtxDone, .release]).sem = 0
+    ∧ ((Gate.St.new 1 1).run [.acquire false, .acquire false, .waiterCtxDone, .release]).waiting = 0 := by decide
+example : Gate.newMax 2 (Gate.two64 - 1) = Gate.two64 - 1 ∧ Gate.newMax 2 (Gate.two64 - 3) = Gate.two64 - 1
+    ∧ Gate.newMax 2 (Gate.two64 - 4) = Gate.two64 - 2 := by decide
+-- the connection: a goroutine tries to push before the response is out, another afterwards
+example : Conn.Reach { hasResponse := true } { wire := [.response, .pushed 0, .pushed 1], activated := true } := by
+  have s1 := Conn.Reach.step Conn.Reach.init (Conn.Step.block (fin := { hasResponse := true }) {} 0 rfl)
+  have s2 := Conn.Reach.step s1 (Conn.Step.finish _ rfl)
+  have s3 := Conn.Reach.step s2 (Conn.Step.unblock _ [] 0 [] rfl rfl)
+  exact Conn.Reach.step s3 (Conn.Step.late _ 1 rfl)
+example : (Conn.Limit.mk 2 0).trace [.connect, .connect, .connect, .disconnect, .connect] = [true, true, false, true, true] := by decide
+-- registration: (ctx, x) -> (any, *Error) with one declared parameter is accepted; a header in second place of two is not
+def declAccepted : MethodDecl :=
+  { method := { name := "m", params := [{ name := "a" }] }, sig := { ins := [.ctx, .other], outs := [.other, .errPtr] } }
+def declRejected : MethodDecl :=
+  { method := { name := "m", params := [] }, sig := { ins := [], outs := [.other, .header] } }
+example : checkMethod declAccepted = none := by decide
+example : checkMethod declRejected = some .secondNotError := by decide
+example : (registerMethods [] [declAccepted, declRejected, declAccepted]).2 = some .secondNotError
+    ∧ (registerMethods [] [declAccepted, declRejected, declAccepted]).1.length = 1 := by decide
 example : feltMaxBits (2 ^ 64 - 1) 64 = true ∧ feltMaxBits (2 ^ 64) 64 = false := by
   refine ⟨(feltMaxBits_spec _ _).mpr (by decide), ?_⟩
   rw [Bool.eq_false_iff, Ne, feltMaxBits_spec]
